@@ -1,13 +1,16 @@
 #!/bin/bash
 # Build the whole Coq development from the files on disk (offline).  Kernels are regenerated from /repo first.
 set -u
-cd /verif || exit 2
+export VERIF_ROOT="${VERIF_ROOT:-$(cd "$(dirname "$0")" && pwd)}"
+export VERIF_REPO="${VERIF_REPO:-/repo}"
+cd "$VERIF_ROOT" || exit 2
 mkdir -p .work evidence replays
-export PYTHONPATH=/repo:/verif/py
+export PYTHONPATH="$VERIF_REPO:$VERIF_ROOT/py"
 /venv/bin/python translator/gen.py || echo "setup: translator reported failures (reported again by the checks)"
 /venv/bin/python - <<'PY'
 import sys
-sys.path.insert(0, '/verif/py')
+import os
+sys.path.insert(0, os.path.join(os.environ['VERIF_ROOT'], 'py'))
 from common import build
 build.coq_project()
 PY
